@@ -81,6 +81,12 @@ def dict2crystalmap(dictionary: dict) -> CrystalMap:
     data = dictionary["data"]
     header = dictionary["header"]
 
+    # The first axis of all datasets with one element per map point is
+    # missing if the map has a single point: hdf5group2dict() returns
+    # the only element along this axis
+    if np.ndim(data["id"]) == 0:
+        data = {k: np.asarray(v)[np.newaxis] for k, v in data.items()}
+
     # New dictionary with CrystalMap initialization arguments as keys
     crystal_map_dict = {
         # Stack along a new last axis to allow more rotations per data
